@@ -2,7 +2,7 @@
 
 Each generator yields (id, source, mode).  Bounds are stated in DESIGN.md section 2.5 and reported in the evidence.
 """
-from __future__ import annotations
+
 
 import ast
 import itertools
@@ -200,16 +200,24 @@ def g4_stdlib_files(limit, seed):
     return files
 
 
-def compile_all(items, optimize_levels=(0,), quiet=True):
-    """[(id, code)] for everything that compiles on this interpreter."""
+
+
+def _future_annotations_flag():
+    import __future__
+    return __future__.annotations.compiler_flag
+
+
+def compile_all(items, optimize_levels=(0,), flag_sets=(0,)):
+    """[(id, code, recipe)] for everything that compiles on this interpreter.  Compiler flags are explicit (dont_inherit)."""
     import warnings
     out = []
     with warnings.catch_warnings():
         warnings.simplefilter("ignore")
         for id_, src, mode in items:
             for opt in optimize_levels:
+              for fl in flag_sets:
                 try:
-                    out.append(("%s:O%d" % (id_, opt), compile(src, "<%s>" % id_, mode, optimize=opt), {"source_id": id_, "mode": mode, "optimize": opt}))
+                    out.append(("%s:O%d%s" % (id_, opt, ":F%x" % fl if fl else ""), compile(src, "<%s>" % id_, mode, flags=fl, dont_inherit=True, optimize=opt), {"source_id": id_, "mode": mode, "optimize": opt, "flags": fl}))
                 except (SyntaxError, ValueError, RecursionError, MemoryError, OverflowError):
                     continue
     return out
@@ -237,6 +245,9 @@ def corpus(tier, seed, want=("g1", "g2", "g3", "g4")):
     units = compile_all(items, optimize_levels=(0, 1, 2) if full else (0,))
     if not full:   # optimisation levels on a subset in the quick tier
         units += compile_all([it for it in items if it[0].startswith(("g2:def:sig010", "g2:assert", "g2:classbody", "g2:module_doc", "g1:fn"))], optimize_levels=(1, 2))
+    if "g1" in want:   # the same sources compiled with `from __future__ import annotations` in effect (a compile() flag)
+        g1 = [it for it in items if it[0].startswith("g1:")]
+        units += compile_all(g1 if full else g1[::3], flag_sets=(_future_annotations_flag(),))
     if "g4" in want:
         import warnings
         for fn in g4_stdlib_files(None if full else 24, seed):
@@ -245,7 +256,7 @@ def corpus(tier, seed, want=("g1", "g2", "g3", "g4")):
                     src = f.read()
                 with warnings.catch_warnings():
                     warnings.simplefilter("ignore")
-                    units.append(("g4:" + os.path.relpath(fn, sysconfig.get_paths()["stdlib"]), compile(src, fn, "exec"), {"file": fn, "mode": "exec", "optimize": -1}))
+                    units.append(("g4:" + os.path.relpath(fn, sysconfig.get_paths()["stdlib"]), compile(src, fn, "exec", dont_inherit=True), {"file": fn, "mode": "exec", "optimize": -1}))
             except (SyntaxError, ValueError, RecursionError, MemoryError, OverflowError):
                 continue
     return units
